@@ -1492,3 +1492,151 @@ def tmgr_rr(case, rp):
             return dict(confirmed=True, detail='; '.join(probs[:3]), input=dict(history=h),
                         found_by='bounded native histories (%d of %d)' % (k + 1, len(histories)))
     return dict(confirmed=False, detail='%d scheduler histories hold natively' % len(histories))
+
+
+# ------------------------------------------------------------------------------
+# C07 / C08 / C03: executor
+#
+class _FakeProc:
+    def __init__(self, code=None): self.code, self.pid, self.waited = code, 4242, 0
+    def poll(self): return self.code
+    def wait(self, *a, **k): self.waited += 1; return self.code
+
+
+def mk_popen(rp):
+    import threading as mt
+    from radical.pilot.agent.executing.popen import Popen
+    p = object.__new__(Popen)
+    p._log, p._prof = Stub(), Stub()
+    p._check_lock = mt.RLock(); p._cancel_lock = mt.RLock()
+    p._tasks = dict(); p._cancel_list = list()
+    p.pub, p.adv = list(), list()
+    p.publish = lambda chan, msg: p.pub.append((chan, [t['uid'] for t in (msg if isinstance(msg, list) else [msg])]))
+    def advance(things, state=None, **kw):
+        for t in (things if isinstance(things, list) else [things]):
+            p.adv.append((t['uid'], state, t.get('target_state')))
+    p.advance = advance
+    p.advance_tasks = advance
+    launcher = Stub()
+    p._rm = type('RM', (), {'get_launcher': lambda self, n: launcher})()
+    return p
+
+
+def released(p, uid):
+    return sum(ids.count(uid) for chan, ids in p.pub if chan == 'agent_unschedule_pubsub')
+
+
+@builder('utils/component.py:BaseComponent.is_canceled#executor',
+         'utils/component.py:BaseComponent.is_canceled')
+def intake_cancel(case, rp):
+    p = mk_popen(rp)
+    p._cancel_list = ['task.0001']
+    placed = {'uid': 'task.0001', 'state': 'AGENT_EXECUTING_PENDING',
+              'slots': [{'node_index': 0, 'cores': [{'index': 0, 'occupation': 1.0}], 'gpus': []}]}
+    other = {'uid': 'task.0002', 'state': 'AGENT_EXECUTING_PENDING', 'slots': []}
+    probs = []
+    if p.is_canceled(other) is not False or p.adv:
+        probs.append('a task that was not named was canceled')
+    r = p.is_canceled(placed)
+    if r is not True: probs.append('named task not reported canceled')
+    if ('task.0001', 'CANCELED', None) not in p.adv: probs.append('named task not advanced to CANCELED')
+    if '#executor' in case.get('function', '') and released(p, 'task.0001') != 1:
+        probs.append('task.0001 held a placement (1 core on node 0) and was canceled at the '
+                     'executor intake, but its release was requested %d times: the core stays BUSY'
+                     % released(p, 'task.0001'))
+    return dict(confirmed=bool(probs), detail='; '.join(probs) or 'intake cancel behaves',
+                input=dict(cancel_list=['task.0001'], task=placed))
+
+
+@builder('agent/executing/popen.py:Popen._check_running', 'agent/executing/popen.py:Popen.cancel_task',
+         'agent/executing/popen.py:Popen.work', 'agent/executing/popen.py:Popen.get_task',
+         'agent/executing/base.py:AgentExecutingComponent.control_cb#cancel')
+def popen_ops(case, rp):
+    """operation sequences on a Popen executor with fake processes: every
+    accepted task is released and handed on exactly once, bystanders stay"""
+    import itertools
+    probs = []
+    n = 0
+    for codes in itertools.product((None, 0, 3), repeat=2):
+        for order in (('watch', 'cancel'), ('cancel', 'watch'), ('cancel', 'cancel', 'watch'), ('watch', 'watch', 'cancel')):
+            for named in (['t1'], ['t1', 't2'], ['t9']):
+                n += 1
+                p = mk_popen(rp)
+                tasks = {u: {'uid': u, 'proc': _FakeProc(c), 'launcher_name': 'FORK', 'description': {}}
+                         for u, c in zip(('t1', 't2'), codes)}
+                p._tasks = dict(tasks)
+                watch = list(tasks.values())
+                try:
+                    for op in order:
+                        if op == 'watch': p._check_running(watch)
+                        else: p.control_cb('control_pubsub', {'cmd': 'cancel_tasks', 'arg': {'uids': named}})
+                except Exception as e:
+                    probs.append('raised %r' % e)
+                for u, c in zip(('t1', 't2'), codes):
+                    k = released(p, u)
+                    handed = [a for a in p.adv if a[0] == u and a[1] == 'AGENT_STAGING_OUTPUT_PENDING']
+                    ended = (c is not None) or (u in named)
+                    if k > 1 or len(handed) > 1: probs.append('%s released %d times, handed on %d times' % (u, k, len(handed)))
+                    if ended and (k != 1 or len(handed) != 1): probs.append('%s (exit %s, named %s) released %d, handed on %d' % (u, c, u in named, k, len(handed)))
+                    if not ended and (k or handed or u not in p._tasks): probs.append('bystander %s was touched' % u)
+                    for a in handed:
+                        want = 'DONE' if c == 0 else 'FAILED' if c is not None else 'CANCELED'
+                        if a[2] != want: probs.append('%s exit %s handed on as %s' % (u, c, a[2]))
+                if probs:
+                    return dict(confirmed=True, detail='; '.join(probs[:3]),
+                                input=dict(exit_codes=dict(zip(('t1', 't2'), codes)), operations=order, cancel_request=named),
+                                found_by='bounded native operation sequences (%d tried)' % n)
+    # a cancel in progress: the canceller has taken t1 out of the registry (it owns
+    # it now) but has not dropped the process handle yet, and the process exited;
+    # the watcher must leave that task alone
+    for code in (0, 3, -9):
+        n += 1
+        p = mk_popen(rp)
+        t1 = {'uid': 't1', 'proc': _FakeProc(code), 'launcher_name': 'FORK', 'description': {}}
+        t2 = {'uid': 't2', 'proc': _FakeProc(None), 'launcher_name': 'FORK', 'description': {}}
+        p._tasks = {'t2': t2}
+        try:
+            p._check_running([t1, t2])
+        except Exception as e:
+            probs.append('raised %r' % e)
+        handed = [a for a in p.adv if a[0] == 't1']
+        if handed or released(p, 't1'):
+            probs.append('t1 is owned by a cancel in progress (not in the registry) but the watcher collected it: released %d, handed on %s'
+                         % (released(p, 't1'), handed))
+        if probs:
+            return dict(confirmed=True, detail='; '.join(probs[:3]),
+                        input=dict(registry=['t2'], watch_list=['t1', 't2'], exit_codes=dict(t1=code, t2=None), operations=['watch']),
+                        found_by='bounded native operation sequences (%d tried)' % n)
+    return dict(confirmed=False, detail='%d executor operation sequences hold natively' % n)
+
+
+@builder('raptor/master.py:Master._result_cb')
+def master_result_cb(case, rp):
+    from radical.pilot.raptor.master import Master
+    n = 0
+    for raises in (False, True):
+        for code in (None, 0, 1, -1, '0', 2):
+            for preset in (None, 'FAILED'):
+                n += 1
+                m = object.__new__(Master)
+                m._log, m._prof = Stub(), Stub()
+                m._task_service_data = dict()
+                adv = []
+                m.advance = lambda things, state=None, **kw: adv.extend((t['uid'], state, t.get('target_state')) for t in things)
+                def cb(tasks):
+                    if raises: raise RuntimeError('user callback')
+                m.result_cb = cb
+                t = {'uid': 'req.1', 'exit_code': code}
+                if preset: t['target_state'] = preset
+                try:
+                    m._result_cb([t])
+                except Exception as e:
+                    return dict(confirmed=True, detail='_result_cb raised %r' % e, input=dict(task=t, callback_raises=raises))
+                want = preset or ('DONE' if code is not None and int(code) == 0 else 'FAILED')
+                probs = []
+                if adv != [('req.1', 'AGENT_STAGING_OUTPUT_PENDING', want)]:
+                    probs.append('exit code %r (preset %s): handed on as %s, expected once with target %s' % (code, preset, adv, want))
+                if probs:
+                    return dict(confirmed=True, detail='; '.join(probs), input=dict(exit_code=code, target_state=preset, callback_raises=raises),
+                                found_by='bounded native enumeration (%d cases)' % n)
+    return dict(confirmed=False, detail='%d result cases hold natively' % n)
